@@ -17,7 +17,7 @@ LEVEL_TEXT = ('Kernel-checked theorems (Props/C20.v): the Gallina transcription 
               'offsets, DIA semantics) equals the specification "row p holds the stencil entries of the neighbours that '
               'exist" on EVERY grid -- any number of dimensions, any positive extents, 1-wide and non-square included -- and for every '
               'stencil of the grid\'s dimension, whatever its extents and entries (C20_stencil_grid_is_spec: induction; the flat index <-> '
-              'multi-index bijection C20_grid_points_row_major; the earlier bounded vm_compute theorem is kept); each pair of grid points receives exactly the stencil entry at position q - p + centre (C20_stencil_entry_is_the_neighbour_entry); the Gallina transcription of poisson() has on every grid in any dimension the closed-form entries (2N or 3^N-1, -1 for existing neighbours), is symmetric, has a positive diagonal and off-diagonals in {-1, 0} (C20_poisson_matrix_closed_form, C20_poisson_symmetric_sign_pattern) and must equal what poisson() returns on every generated grid; the FE and FD 2-D diffusion stencils, written operation by operation as the '
+              'multi-index bijection C20_grid_points_row_major; the earlier bounded vm_compute theorem is kept); each pair of grid points receives exactly the stencil entry at position q - p + centre (C20_stencil_entry_is_the_neighbour_entry); the Gallina transcription of poisson() has on every grid in any dimension the closed-form entries (2N or 3^N-1, -1 for existing neighbours), is symmetric, has a positive diagonal and off-diagonals in {-1, 0} (C20_poisson_matrix_closed_form, C20_poisson_symmetric_sign_pattern), row sums equal the sum of the stencil entries whose neighbour exists (C20_stencil_row_sum) and the FD Poisson matrix is weakly diagonally dominant (C20_poisson_fd_weakly_diagonally_dominant) and must equal what poisson() returns on every generated grid; the FE and FD 2-D diffusion stencils, written operation by operation as the '
               'library computes them from eps, cos(theta), sin(theta), are exact on all quadratic polynomials (0 on 1, x, y; '
               '-2 K11, -2 K22, -2 K12 on x^2, y^2, xy with K = Q diag(1, eps) Q^T), for every anisotropy and rotation, over any '
               'field with 2 and 3 invertible -- they discretise -div K grad u -- and these Gallina stencils evaluated at '
